@@ -8,6 +8,7 @@ reads only `eqn`, `env[eqn.invars]` and `self.key`).
 from __future__ import annotations
 
 import types
+from vt.stubs.ns import StubNS
 
 import z3
 
@@ -23,12 +24,12 @@ pjax = loader.load("pjax")
 
 # ---- patch the module's dependencies with the API model -------------------------------------------
 pjax.jrand = J.jrand
-pjax.jc = types.SimpleNamespace(DropVar=J.DropVar, get_aval=lambda x: None, eval_jaxpr=None, TraceTag=object)
+pjax.jc = StubNS(DropVar=J.DropVar, get_aval=lambda x: None, eval_jaxpr=None, TraceTag=object, Tracer=J.Tracer)
 pjax.Literal, pjax.Var = J.Literal, J.Var
 pjax.cond_p, pjax.scan_p = J.cond_p, J.scan_p
 pjax.switch = J.switch
 pjax.scan = lax_stub.scan
-pjax.jex = types.SimpleNamespace(core=types.SimpleNamespace(jaxpr_as_fun=J.jaxpr_as_fun))
+pjax.jex = StubNS(core=StubNS(jaxpr_as_fun=J.jaxpr_as_fun))
 STAGE = J._Stage()
 pjax.stage = STAGE
 pjax.jnp = jnp_stub.namespace()
@@ -216,7 +217,7 @@ class SeedCondStep(_SeedStep):
     """cond: one sub-key for the whole cond goes to `switch`; every branch is a nested seed interpreter
     rooted at that sub-key; sites inside branches are removed (never re-bound)"""
 
-    cases = ["two_branches"]
+    cases = ["two_branches", "two_branches(traced_operands)"]
 
     def call(self, case):
         self.taint = install_taint()
@@ -231,6 +232,9 @@ class SeedCondStep(_SeedStep):
         self.bA, self.bB = branch(self.sA), branch(self.sB)
         i, x, o = J.Var("i"), J.Var("x"), J.Var("o")
         self.vi, self.vx = Sym(fresh("idx", z3.IntSort())), value("x")
+        engine().assume(z3.And(self.vi.e >= 0, self.vi.e < 2))  # a valid branch index
+        if "traced" in case:  # the same obligations must hold for concrete (eager) and traced (jit) operands
+            self.vi, self.vx = J.TracerSym(self.vi.e), J.TracerSym(self.vx.e)
         jp = J.Jaxpr([], [i, x], [J.Eqn(J.cond_p, [i, x], [o], {"branches": (self.bA, self.bB)})], [o])
         self.it = interp(self.k0)
         return self.real(self.it.eval_jaxpr_seed, jp, [], [self.vi, self.vx])
@@ -241,26 +245,24 @@ class SeedCondStep(_SeedStep):
             return
         k0 = self.k0.e
         sw = path.extra.get("switch_calls", [])
-        yield "one_switch", len(sw) == 1
-        if len(sw) != 1:
-            return
-        c = sw[0]
-        yield "index_forwarded", c["index"] is self.vi
-        yield "switch_gets_one_sub_key_then_the_operands", len(c["operands"]) == 2 and same(c["operands"][0], Sym(Key.R(k0))) and c["operands"][1] is self.vx
-        yield "interpreter_key_advanced", same(self.it.key, Sym(Key.L(k0)))
-        yield "branches_in_order", len(c["branches"]) == 2
-        # the nested interpreters consumed keys strictly below the delegated sub-key
         sub = Key.R(k0)
-        kA = self.sA.calls[0][0] if self.sA.calls else None
-        kB = self.sB.calls[0][0] if self.sB.calls else None
-        yield "branch_sites_keyed_below_the_delegated_key", same(kA, Sym(Key.R(sub))) and same(kB, Sym(Key.R(sub)))
-        yield "branch_sites_not_rebound", not self.sA.binds and not self.sB.binds
-        yield "cond_primitive_itself_not_rebound", len(J.cond_p.binds) == 0
-        out = path.value[0]
+        # semantic clauses (must hold however the cond is executed, for concrete and for traced operands alike)
+        yield "interpreter_key_advanced", same(self.it.key, Sym(Key.L(k0)))
         A = DrawK(z3.IntVal(self.sA.id * 10), Key.R(sub), enc((self.vx,)))
         B = DrawK(z3.IntVal(self.sB.id * 10), Key.R(sub), enc((self.vx,)))
-        yield "result_is_the_taken_branchs_draw", same(out, Sym(z3.If(self.vi.e == 0, A, B)))
+        out = path.value[0]
+        yield "result_is_the_taken_branchs_draw_keyed_below_the_conds_own_sub_key", same(out, Sym(z3.If(self.vi.e == 0, A, B)))
+        yield "branch_sites_not_rebound", not self.sA.binds and not self.sB.binds
+        yield "cond_primitive_itself_not_rebound", len(J.cond_p.binds) == 0
         yield "no_hidden_randomness", self.taint.touched == 0 and not outputs_tainted(path.value)
+        used = [c[0] for c in self.sA.calls + self.sB.calls]
+        yield "every_branch_site_keyed_strictly_below_the_delegated_key", all(z3.eq(z3.simplify(_lift(k)), z3.simplify(Key.R(sub))) for k in used) and len(used) >= 1
+        # shape clauses, only where the implementation goes through lax.switch
+        if len(sw) == 1:
+            c = sw[0]
+            yield "index_forwarded", c["index"] is self.vi
+            yield "switch_gets_one_sub_key_then_the_operands", len(c["operands"]) == 2 and same(c["operands"][0], Sym(Key.R(k0))) and c["operands"][1] is self.vx
+            yield "branches_in_order", len(c["branches"]) == 2
 
     def __init__(self):
         super().__init__()
@@ -413,3 +415,8 @@ class KeyDiscipline(Contract):
 from vt.contract import track as _track  # noqa: E402
 
 _track(STAGE.calls, J.cond_p.binds, J.scan_p.binds)
+
+from vt.contract import canary as _canary  # noqa: E402
+
+_canary(SeedSampleStep, "sample_p", "site_key_is_second_half_of_split")
+_canary(SeedSequence, "sample;det;sample", "site_keys_distinct")
